@@ -15,6 +15,7 @@ package main
 
 import (
 	"bytes"
+	"context"
 	"crypto/sha1"
 	"encoding/hex"
 	"encoding/json"
@@ -25,6 +26,7 @@ import (
 	"path/filepath"
 	"strconv"
 	"strings"
+	"time"
 
 	"github.com/itchyny/gojq"
 	"github.com/itchyny/gojq/cli"
@@ -418,6 +420,36 @@ func keyOf(prefix, s string) string {
 	return prefix + ":" + s
 }
 
+var gctx *common.Ctx
+
+// runLog runs the real command in-process under a watchdog: a run that does not return or
+// floods its output is reported and ends the harness.
+func runLog(args []string, stdin string, seekable bool) ([]cli.VerifChunk, int) {
+	type res struct {
+		chunks []cli.VerifChunk
+		code   int
+	}
+	ch := make(chan res, 1)
+	go func() {
+		c, code := cli.VerifRunLog(args, []byte(stdin), seekable)
+		ch <- res{c, code}
+	}()
+	what := ""
+	select {
+	case rr := <-ch:
+		if rr.code != cli.VerifRunawayCode {
+			return rr.chunks, rr.code
+		}
+		what = fmt.Sprintf("wrote more than %d bytes", cli.VerifOutputLimit)
+	case <-time.After(30 * time.Second):
+		what = "did not terminate within 30 s"
+	}
+	gctx.Violate(keyOf("runaway", fmt.Sprint(args, "<", stdin)), fmt.Sprintf("gojq %v %s", args, what),
+		map[string]any{"args": args, "stdin": stdin, "observed": what, "expected": "the command terminates", "cmd": fmt.Sprintf("printf %%s%s | timeout 10 gojq%s", shq([]string{stdin}), shq(args))})
+	gctx.Finish()
+	return nil, 0
+}
+
 type runCase struct {
 	args  []string
 	stdin string
@@ -426,6 +458,7 @@ type runCase struct {
 
 func main() {
 	ctx := common.ParseFlags("C15")
+	gctx = ctx
 	r := ctx.R
 	st := ctx.NewStream("process", "Gojq.Process.process/printValues/marshal/exitCode/runStatus (Model/Cli/Process.lean = cli/cli.go run, process, printValues, createMarshaler; cli/marshaler.go; cli/error.go)",
 		"generated queries (values, strings with NUL/newlines, errors of every carrier at chosen positions, try/catch, halt, halt_error with and without codes and messages) × 0..5 input documents with optional malformed tail × every combination of -r -j --raw-output0 -c --tab --indent n -e -n -s; library outputs obtained in-process; distinct = distinct implementation answers")
@@ -512,7 +545,7 @@ func main() {
 		}
 		// real command
 		args := append(o.args(r), q)
-		chunks, status := cli.VerifRunLog(args, []byte(text), r.Bool())
+		chunks, status := runLog(args, text, r.Bool())
 		stdout, errs, _ := classify(chunks)
 		got := answer(status, stdout, errs)
 		lines = append(lines, strings.Join(fields, " | "))
@@ -585,7 +618,7 @@ func earlyOracle(ctx *common.Ctx, r *common.Rand) {
 	for _, b := range base {
 		for _, x := range extras {
 			args := append(append([]string{}, x...), b.args...)
-			chunks, status := cli.VerifRunLog(args, []byte("1 2"), false)
+			chunks, status := runLog(args, "1 2", false)
 			stdout, errs, _ := classify(chunks)
 			orc.Cases++
 			seen[fmt.Sprint(args)] = true
@@ -617,19 +650,21 @@ func binaryOracle(ctx *common.Ctx, sample []runCase) {
 		return
 	}
 	for _, c := range sample {
-		p := exec.Command(bin, c.args...)
+		cx, cancel := context.WithTimeout(context.Background(), 20*time.Second)
+		p := exec.CommandContext(cx, bin, c.args...)
 		p.Stdin = strings.NewReader(c.stdin)
 		p.Env = append(os.Environ(), "NO_COLOR=1")
 		var o, e bytes.Buffer
 		p.Stdout, p.Stderr = &o, &e
 		err := p.Run()
+		cancel()
 		status := 0
 		if ee, ok := err.(*exec.ExitError); ok {
 			status = ee.ExitCode()
 		} else if err != nil {
 			status = -1
 		}
-		chunks, istatus := cli.VerifRunLog(c.args, []byte(c.stdin), false)
+		chunks, istatus := runLog(c.args, c.stdin, false)
 		iout, _, ierr := classify(chunks)
 		orc.Cases++
 		orc.Distribution[fmt.Sprintf("status=%d", status)]++
